@@ -2,6 +2,7 @@
 # development helper: tools/runall.sh <tier> <seed> : runs every check, prints one line per property
 T=${1:-quick}; S=${2:-1}
 for p in C01 C02 C03 C04 C05 C06 C07 C08 C09 C10 C11 C12 C13 C14 C15 C16 C17 C18 C19 C20; do
-  out=$(/verif/check $p --tier $T --seed $S 2>&1); rc=$?
+  D=$(cd "$(dirname "$0")/.." && pwd)
+  out=$($D/check $p --tier $T --seed $S 2>&1); rc=$?
   echo "rc=$rc $(echo "$out" | grep -E "^$p tier" | cut -c1-120) $(echo "$out" | grep -cE '^KNOWN-FINDING') known $(echo "$out" | grep -E '^VIOLATION|^INCONCLUSIVE' | cut -c1-200)"
 done
